@@ -12,5 +12,7 @@ CONSTANTS
   ProbeNs <- NoProbes
   ProbeUids <- UidsOwn
   MaxOld = 0
+  Transports <- TrIP
+  ScmpTypes <- ScmpNone
 VIEW view
 INVARIANTS ReqFits
